@@ -102,7 +102,7 @@ def add_dense_shared(u):
 
 
 DENSE = {
-    'clean': dict(hints=[('before', 'self.data.clear()', 'proof { assert(/*@L:hint.tables_first*/ self.data_id@.len() == 0 && self.entity_id@.len() == 0 /*@E*/); }')]),
+    'clean': dict(hints=[('before', 'self.data.clear()', 'proof { assert(/*@L:hint.tables_first*/ self.data_id@.len() == 0 && self.entity_id@.len() == 0 /*@E*/); }', 'soft')]),
     'insert': dict(hints=[('start', None, 'proof { lemma_tab_room(dense_tab(old(self)), id); }'),
                           ('after', 'self.data.push(', 'proof { lemma_tab_insert(dense_tab(old(self)), dense_tab(self), id as Index); }')]),
     'remove': dict(hints=[('before_tail', None, 'proof { let ghost o = dense_tab(old(self)); }')]),
